@@ -378,8 +378,8 @@ func newC04Gen(c *Ctx, e *c04Env) (*c04Gen, error) {
 		}
 	}
 	sort.Ints(rest)
-	if len(rest) > 2 {
-		rest = rest[:2]
+	if len(rest) > 1 {
+		rest = rest[:1]
 	}
 	g.unk = append(g.unk, rest...)
 	return g, nil
@@ -460,8 +460,8 @@ func (g *c04Gen) batches() [][]string {
 	qs = nil
 	type pr struct{ a, b int }
 	var pairs []pr
-	for _, a := range all {
-		for _, b := range all {
+	for _, a := range g.stored {
+		for _, b := range g.stored {
 			pairs = append(pairs, pr{a, b})
 		}
 	}
@@ -469,6 +469,11 @@ func (g *c04Gen) batches() [][]string {
 		c.Rng.Shuffle(len(pairs), func(i, j int) { pairs[i], pairs[j] = pairs[j], pairs[i] })
 		pairs = pairs[:lim]
 	}
+	for _, u := range g.unk {
+		x := g.stored[c.Rng.Intn(len(g.stored))]
+		pairs = append(pairs, pr{u, x}, pr{x, u})
+	}
+	pairs = append(pairs, pr{g.unk[0], g.unk[len(g.unk)-1]})
 	for _, p := range pairs {
 		qs = append(qs, fmt.Sprintf("A=%d/%d", p.a, p.b))
 		c.Count(g.pairClass(p.a, p.b))
@@ -478,25 +483,31 @@ func (g *c04Gen) batches() [][]string {
 	// common ancestor: the empty list, raw bodies, all singletons, sets (lists) up to 4
 	qs = []string{"C=", "B=null", "B=obj", "B=num", "B=bad"}
 	var lists [][]int
-	n := len(all)
-	for i := 0; i < n; i++ {
-		lists = append(lists, []int{all[i]})
+	for _, a := range all {
+		lists = append(lists, []int{a})
 	}
-	for i := 0; i < n; i++ {
-		for j := 0; j < n; j++ {
-			lists = append(lists, []int{all[i], all[j]}) // ordered, incl. the duplicate [a,a]
+	for _, a := range g.stored {
+		for _, b := range g.stored {
+			lists = append(lists, []int{a, b}) // ordered, incl. the duplicate [a,a]
 		}
 	}
 	var big [][]int
+	n := len(g.stored)
 	for i := 0; i < n; i++ {
 		for j := i + 1; j < n; j++ {
 			for k := j + 1; k < n; k++ {
-				big = append(big, []int{all[i], all[j], all[k]})
-				for l := k + 1; l < n; l++ {
-					big = append(big, []int{all[i], all[j], all[k], all[l]})
+				big = append(big, []int{g.stored[i], g.stored[j], g.stored[k]})
+				for l := k + 1; l < n && len(big) < 20000; l++ {
+					big = append(big, []int{g.stored[i], g.stored[j], g.stored[k], g.stored[l]})
 				}
 			}
 		}
+	}
+	// a few lists with an unknown hash at different positions
+	for _, u := range g.unk {
+		x := g.stored[c.Rng.Intn(len(g.stored))]
+		y := g.stored[c.Rng.Intn(len(g.stored))]
+		big = append(big, []int{u, x}, []int{x, y, u})
 	}
 	limPairs, limBig := c.Pick(80, 400), c.Pick(60, 400)
 	if len(lists) > limPairs {
@@ -659,7 +670,7 @@ func runC04(c *Ctx) error {
 	}
 	// random: forks of several depths, several stale branches, orphan chains (also parent arriving later),
 	// reorganisations back and forth - the C01 generator restricted to positive work
-	n := c.Pick(60, 500)
+	n := c.Pick(150, 1500)
 	for i := 0; i < n; i++ {
 		o := GenOpts{N: 3 + c.Rng.Intn(c.Pick(14, 26)), PUnknown: 0.1, PLate: 0.12, PDup: 0.05, PForbidden: 0.1, Positive: true, Deep: i%2 == 0}
 		if i%5 == 4 {
